@@ -86,6 +86,8 @@ pub mod miette;
 pub mod figment;
 pub(crate) mod ring_reader;
 mod wrapping;
+#[cfg(serde_saphyr_verif)]
+pub mod verif_hooks;
 mod zmij_format;
 // ---------------- Serialization (public API) ----------------
 
